@@ -8,8 +8,8 @@ import (
 )
 
 func init() {
-	props["C13"] = propC13
-	props["C14"] = propC14
+	props["C13"] = bothCapacities(propC13)
+	props["C14"] = bothCapacities(propC14)
 }
 
 // elemPool picks k diverse element values.
@@ -107,11 +107,29 @@ func mkList(st reflect.Type, pool []Gen, idx []int, nilList bool) reflect.Value 
 	if nilList {
 		return reflect.Zero(st)
 	}
-	l := reflect.MakeSlice(st, len(idx), len(idx))
+	l := reflect.MakeSlice(st, len(idx)+listSpare, len(idx)+listSpare)
 	for i, j := range idx {
 		l.Index(i).Set(pool[j]())
 	}
-	return l
+	// spare capacity holds further elements that are not part of the list
+	for i := len(idx); i < l.Len(); i++ {
+		l.Index(i).Set(pool[(i+1)%len(pool)]())
+	}
+	return l.Slice(0, len(idx))
+}
+
+// listSpare is the spare capacity of every list mkList builds: the list properties are
+// explored twice, over exactly sized lists and over windows of longer backing arrays.
+var listSpare int
+
+func bothCapacities(f propFunc) propFunc {
+	return func(h *H) {
+		for _, sp := range []int{0, 2} {
+			listSpare = sp
+			f(h)
+		}
+		listSpare = 0
+	}
 }
 
 func canonList(l reflect.Value) []string {
